@@ -552,3 +552,26 @@ pub fn p_asserts(a: In) -> Out {
     };
     [v, 0, 0, 0, 0, 0, 0, 0]
 }
+
+pub fn z_more(a: In) -> Out {
+    let tw: u64 = a.iter().take_while(|x| **x < 5).map(|x| u64::from(*x)).sum();
+    let sw: u64 = a.iter().skip_while(|x| **x < 5).map(|x| u64::from(*x) + 1).sum();
+    let rf = a.iter().rfind(|x| **x & 1 == 1).copied();
+    let rd = a.iter().copied().reduce(|p, q| if q < p { q } else { p });
+    let rd2 = a.iter().copied().filter(|x| *x > 3).reduce(|p, q| p ^ q);
+    let x = a[0].wrapping_mul(2_654_435_761) ^ a[1];
+    let b = x.to_le_bytes();
+    let c = x.to_be_bytes();
+    let sg = ((a[2] as i32) - (a[3] as i32)).signum();
+    let po = Some(a[4]).partial_cmp(&if a[5] & 1 == 1 { Some(a[5]) } else { None });
+    [
+        tw,
+        sw,
+        o(rf),
+        o(rd),
+        o(rd2),
+        u64::from(b[0]) | u64::from(b[3]) << 8 | u64::from(c[0]) << 16 | u64::from(c[1]) << 24 | u64::from(u32::from_le_bytes(c)) << 32,
+        (sg + 1) as u64,
+        match po { Some(core::cmp::Ordering::Less) => 1, Some(core::cmp::Ordering::Equal) => 2, Some(core::cmp::Ordering::Greater) => 3, None => 4 },
+    ]
+}
